@@ -574,6 +574,11 @@ func (fr *Frame) rangeOverFunc(st *State, it Term, mc *ssa.MakeClosure, yf *ssa.
 		if ef.maps {
 			hs.maps = map[string]Term{}
 			hs.mbase = vc.freshName("ep")
+			hs.lazyParents, hs.lazySels = nil, nil
+		} else {
+			for kv := range ef.mapKV {
+				vc.havocMapsOfSorts(hs, kv[0], kv[1])
+			}
 		}
 		na := vc.Fresh("alloc", SInt)
 		hs.assume(Ge(na, hs.alloc))
@@ -913,6 +918,13 @@ func (fr *Frame) applyContract(st *State, c *FuncContract, key string, sig *type
 			vc.havocAll(st)
 		}
 	}
+	if !c.ModifiesAll {
+		for _, s := range vc.modifiedSorts(env, c) {
+			st.heaps[s] = vc.Fresh("hty", heapSort(s))
+			st.touch(s)
+			vc.heapReg[s] = true
+		}
+	}
 	if c.Logged {
 		if gv := vc.ctx.ghostVars[c.PkgPath+"::calls_"+c.LogName]; gv != nil {
 			cur, _, _ := vc.ghostVar(st, gv)
@@ -933,6 +945,7 @@ func (fr *Frame) applyContract(st *State, c *FuncContract, key string, sig *type
 	if c.ModifiesMaps && !c.ModifiesAll {
 		st.maps = map[string]Term{}
 		st.mbase = vc.freshName("ep")
+		st.lazyParents, st.lazySels = nil, nil
 	}
 	for _, g := range c.Assigns {
 		if gv := vc.ctx.ghostVars[vc.ctx.ghostKey(c.PkgPath, g)]; gv != nil {
@@ -1337,6 +1350,27 @@ func (fr *Frame) builtin(st *State, b *ssa.Builtin, cc *ssa.CallCommon, args []T
 		vc.setMapHeap(st, "dom", ks, vs, Store(domH, Rid(m), Store(Select(domH, Rid(m)), key, False)))
 		return nil, nil
 	case "clear":
+		if sl, ok := U(cc.Args[0].Type()).(*types.Slice); ok {
+			// clear(s): every element becomes the zero value
+			elem := sl.Elem()
+			leaf := map[Sort]bool{}
+			vc.leafSorts(elem, leaf)
+			dst := SBase(args[0])
+			size := Mul(SLen(args[0]), IntLit(vc.tt.Slots(elem)))
+			q := Term{"q!r", SRef}
+			inDst := And(Eq(Rid(q), Rid(dst)), Le(Roff(dst), Roff(q)), Lt(Roff(q), Add(Roff(dst), size)))
+			for srt := range leaf {
+				z, err := vc.zeroOfSort(srt)
+				if err != nil {
+					return nil, err
+				}
+				old := vc.heap(st, srt)
+				st.heaps[srt] = vc.LambdaHeap("hclr", srt, Ite(inDst, z, Select(old, q)))
+				st.touch(srt)
+				vc.heapReg[srt] = true
+			}
+			return nil, nil
+		}
 		mt, ok := U(cc.Args[0].Type()).(*types.Map)
 		if !ok {
 			return nil, fmt.Errorf("clear of a non-map")
@@ -1465,8 +1499,42 @@ func (fr *Frame) callEffects(ci ssa.CallInstruction, li *loopInfo, ef *effects) 
 	case *ssa.MakeClosure:
 		fr.funcEffects(callee.Fn.(*ssa.Function), ef, 0)
 	default:
+		// a function value bound to a known closure (a callback handed to an inlined callee)
+		if ft, err := fr.value(cc.Value); err == nil {
+			if ci, ok := vc.ctx.closures[ft.S]; ok {
+				fr.funcEffects(ci.fn, ef, 0)
+				return
+			}
+		}
 		ef.all = true
 	}
+}
+
+// addMapSortEffect: some map of this type is written; which one is not tracked.
+func (fr *Frame) addMapSortEffect(t types.Type, ef *effects) {
+	mt, ok := U(t).(*types.Map)
+	if !ok {
+		ef.maps = true
+		return
+	}
+	ks, e1 := fr.vc.tt.SortOf(mt.Key())
+	vs, e2 := fr.vc.tt.SortOf(mt.Elem())
+	if e1 != nil || e2 != nil {
+		ef.maps = true
+		return
+	}
+	if ef.mapKV == nil {
+		ef.mapKV = map[[2]Sort]bool{}
+	}
+	ef.mapKV[[2]Sort{ks, vs}] = true
+}
+
+// havocMapsOfSorts: every map with these key/value sorts gets arbitrary contents.
+func (vc *VC) havocMapsOfSorts(st *State, ks, vs Sort) {
+	vc.setMapHeap(st, "dom", ks, vs, vc.Fresh("domH", SArray(SInt, SArray(ks, SBool))))
+	vc.setMapHeap(st, "val", ks, vs, vc.Fresh("valH", SArray(SInt, SArray(ks, vs))))
+	nl := vc.Fresh("lenH", SArray(SInt, SInt))
+	vc.setMapHeap(st, "len", "", "", nl)
 }
 
 // modTarget resolves a modifies expression statically to (index of the callee parameter it is
@@ -1650,6 +1718,15 @@ func (fr *Frame) contractEffects(c *FuncContract, ef *effects) {
 		return
 	}
 	ef.alloc = true
+	if len(c.ModifiesTypes) > 0 {
+		env := &SpecEnv{vc: fr.vc, pkg: fr.vc.ctx.typesPkg(c.PkgPath)}
+		for _, s := range fr.vc.modifiedSorts(env, c) {
+			ef.unk[s] = true
+			if _, has := ef.sorts[s]; !has {
+				ef.sorts[s] = nil
+			}
+		}
+	}
 	if len(c.Modifies) > 0 {
 		// conservatively: the sorts are determined at application time; mark everything of those sorts unknown
 		// by evaluating the static types is not possible without arguments, so fall back to all heaps.
@@ -1683,8 +1760,10 @@ func (fr *Frame) funcEffects(fn *ssa.Function, ef *effects, depth int) {
 						ef.sorts[s] = nil
 					}
 				}
-			case *ssa.MapUpdate, *ssa.MakeMap:
-				ef.maps = true
+			case *ssa.MapUpdate:
+				ef.alloc = true
+				fr.addMapSortEffect(x.Map.Type(), ef)
+			case *ssa.MakeMap:
 				ef.alloc = true
 			case *ssa.Alloc:
 				ef.alloc = true
@@ -1734,8 +1813,8 @@ func (fr *Frame) funcEffects(fn *ssa.Function, ef *effects, depth int) {
 								ef.sorts[s] = nil
 							}
 						}
-					case "delete":
-						ef.maps = true
+					case "delete", "clear":
+						fr.addMapSortEffect(cc.Args[0].Type(), ef)
 					}
 				case *ssa.Function:
 					fr.funcEffects(callee, ef, depth+1)
@@ -1830,4 +1909,27 @@ func (vc *VC) applyAppends(st *State, env *SpecEnv, as *AppendSpec) (*appendEffe
 	st.touch(es)
 	vc.heapReg[es] = true
 	return &appendEffect{res: res, when: when}, nil
+}
+
+// modifiedSorts: the heap sorts named by the "modifies allof T" clauses of c.
+func (vc *VC) modifiedSorts(env *SpecEnv, c *FuncContract) []Sort {
+	set := map[Sort]bool{}
+	for _, tn := range c.ModifiesTypes {
+		t, err := env.resolveTypeName(tn)
+		if err != nil || t == nil {
+			vc.note("contract error: modifies allof %s: %v", tn, err)
+			continue
+		}
+		vc.leafSorts(t, set)
+	}
+	var out []string
+	for s := range set {
+		out = append(out, string(s))
+	}
+	sort.Strings(out)
+	var res []Sort
+	for _, s := range out {
+		res = append(res, Sort(s))
+	}
+	return res
 }
